@@ -311,6 +311,13 @@ func txfeeGen(rng *RNG, out *Out) *txfeeOp {
 		if rng.Chance(50) {
 			pb.add("nhash", big.NewInt(500))
 		}
+		if rng.Chance(30) {
+			// the payer could pay everything itself: only the named granter may be charged
+			for d, v := range payerNeeds {
+				pb.add(d, v)
+			}
+			out.Count("feegrant:payer_rich")
+		}
 		op.bal["P"] = pb.coins()
 		switch a := rng.Intn(100); {
 		case a < 35:
